@@ -113,14 +113,14 @@ static void server(void) {
 }
 static Result reference(const Query *q) { Result r = {-8, -8, 0}; if (write(to_srv[1], q, sizeof *q) != (ssize_t)sizeof *q) return r; if (read(from_srv[0], &r, sizeof r) != (ssize_t)sizeof r) r.ok = -8; return r; }
 
-static const double ES[] = {-1.0, 0.0, 1e-3, 0.5, 1.0, 4.0, 8.979, 17.44, 29.2, 59.5, 100.0, 300.0, 999.0, 1500.0};
+static const double ES[] = {-1.0, 0.0, 1e-3, 0.5, 1.0, 4.0, 8.979, 17.44, 29.2, 59.5, 100.0, 300.0, 999.0, 1500.0, 2e4, 1e6};      /* the last two lie beyond every table: failing calls of every energy-dependent function */
 static const double AS[] = {0.0, 0.3, 0.7853981633974483, 1.5707963267948966, 2.7, 3.141592653589793, -1.0};
 static const char *STRS[] = {"H2O", "Ca5((P(O2)2)3)OH", "SiO2", "Water, Liquid", "Polyethylene", "H2O)", "", "Rf", "Fe", "((((((((((H2O))))))))))", "U", "Xx", "Si", "Diamond", "nope"};
 void random_query(Query *q) {
   memset(q, 0, sizeof *q); int r = rndint(0, 99);
   if (r < 62) { int nf = 0; while (API_TABLE[nf].name) nf++; q->kind = 0; q->fn = rndint(0, nf - 1); const ApiFn *f = &API_TABLE[q->fn];
     q->ia[0] = rndint(0, 9) ? rndint(1, 98) : rndint(-2, 124); q->ia[1] = rndint(0, 5) ? rndint(f->mlo + 3 < 0 ? f->mlo + 3 : 0, f->mhi - 3) : rndint(f->mlo, f->mhi);
-    for (int i = 0; i < 3; i++) q->da[i] = i == 0 ? ES[rndint(0, 13)] : AS[rndint(0, 6)]; snprintf(q->s, sizeof q->s, "%s", STRS[rndint(0, 11)]); }
+    for (int i = 0; i < 3; i++) q->da[i] = i == 0 ? ES[rndint(0, 15)] : AS[rndint(0, 6)]; snprintf(q->s, sizeof q->s, "%s", STRS[rndint(0, 11)]); }
   else if (r < 70) { q->kind = 1; snprintf(q->s, sizeof q->s, "%s", STRS[rndint(0, 11)]); }
   else if (r < 74) { q->kind = 2; snprintf(q->s, sizeof q->s, "%s", STRS[rndint(0, 14)]); }
   else if (r < 77) { q->kind = 3; q->ia[0] = rndint(-2, 182); }
@@ -128,9 +128,9 @@ void random_query(Query *q) {
   else if (r < 82) { q->kind = 5; q->ia[0] = rndint(-1, 110); }
   else if (r < 84) { q->kind = 6; snprintf(q->s, sizeof q->s, "%s", STRS[rndint(5, 14)]); }
   else if (r < 88) { q->kind = 7; snprintf(q->s, sizeof q->s, "%s", STRS[rndint(11, 14)]); }
-  else if (r < 92) { q->kind = (int[]){8, 9, 13}[rndint(0, 2)]; snprintf(q->s, sizeof q->s, "%s", STRS[rndint(12, 13)]); q->ia[0] = rndint(-2, 2); q->ia[1] = rndint(-2, 2); q->ia[2] = rndint(0, 3); q->da[0] = ES[rndint(3, 10)]; }
-  else if (r < 95) { q->kind = 10; q->ia[0] = rndint(0, 100); q->da[0] = ES[rndint(2, 11)]; q->da[1] = rndint(0, 8) / 4.0; }
-  else if (r < 97) { q->kind = 11; snprintf(q->s, sizeof q->s, "%s", STRS[rndint(0, 7)]); q->da[0] = ES[rndint(0, 13)]; q->da[1] = rndint(-1, 3); }
+  else if (r < 92) { q->kind = (int[]){8, 9, 13}[rndint(0, 2)]; snprintf(q->s, sizeof q->s, "%s", STRS[rndint(12, 13)]); q->ia[0] = rndint(-2, 2); q->ia[1] = rndint(-2, 2); q->ia[2] = rndint(0, 3); q->da[0] = ES[rndint(0, 3) ? rndint(3, 10) : rndint(11, 15)]; }
+  else if (r < 95) { q->kind = 10; q->ia[0] = rndint(0, 100); q->da[0] = ES[rndint(2, 15)]; q->da[1] = rndint(0, 8) / 4.0; }
+  else if (r < 97) { q->kind = 11; snprintf(q->s, sizeof q->s, "%s", STRS[rndint(0, 7)]); q->da[0] = ES[rndint(0, 15)]; q->da[1] = rndint(-1, 3); }
   else q->kind = r < 99 ? 14 : 12;
   if (q->kind == 14) q->ia[0] = rndint(0, 40);
 }
@@ -163,7 +163,10 @@ int cmd_c16(int argc, char **argv) {
       Crystal_Array *ua = NULL;
       for (int s = 0; s < len; s++) {
         int r = rndint(0, 99);
-        if (r < 80) { Query q; random_query(&q);
+        if (r < 80) { Query q; static Query last; static int have_last = 0;
+          /* one query in four is the previous query again, back to back: a result memoised by the first call (a failing one included) must not change the second */
+          if (have_last && rndint(0, 3) == 0) q = last; else random_query(&q);
+          last = q; have_last = 1;
           /* ambient process state the library does not own, left behind by the application or another library: a stale errno, sticky floating-point flags */
           int amb = rndint(0, 7); if (amb == 1) errno = EDOM; else if (amb == 2) errno = ERANGE; else if (amb == 3) { errno = EINVAL; feraiseexcept(FE_INVALID | FE_DIVBYZERO | FE_OVERFLOW); } else if (amb == 4) { errno = 0; feclearexcept(FE_ALL_EXCEPT); }
           Result a = run_query(&q); Result b = reference(&q);
